@@ -188,6 +188,8 @@ def _consumed_read_only(node: ast.AST, parents: Dict[int, ast.AST], one_dim: boo
             if cur is par.test:
                 return True
             return False
+        if isinstance(par, ast.keyword) and par.arg in ("out", "where_out", "dst"):
+            return False  # the object is written through (ufunc out= argument)
         if isinstance(par, (ast.Tuple, ast.List, ast.Starred, ast.keyword, ast.Slice)):
             cur = par
             continue
